@@ -60,7 +60,7 @@ func c02(c *ctx) {
 			w.pfd(a, apps[:1+r.Intn(2)], r.Intn(4) == 0)
 		case k < 9:
 			pdrs, fars, qers := w.genSession(r.Intn(8))
-			if r.Intn(12) == 0 {
+			if r.Intn(12) == 0 && len(pdrs) == 2 { // (with a third PDR the two downlink rules would get the same match key)
 				// a flow description naming an IPv6 network: whatever the agent makes of it, the request is answered once
 				pdrs[len(pdrs)-1].Sdf = strp([]string{"permit out ip from 2001:db8:a0b:12f0::1/64 to assigned", "permit out tcp from 2001:db8::/32 80 to assigned"}[r.Intn(2)])
 			}
@@ -161,4 +161,28 @@ func c02(c *ctx) {
 	flood()
 	w2.assoc(0)
 	flood()
+	// the peer answers each of the agent's own heartbeats twice (a duplicated response is harmless by the protocol):
+	// every later request on the association still gets its one response
+	w3, err := newWorld(c, sysh.Opts{HB: true, HBInterval: "150ms", RespTimeout: "400ms", MaxRetries: 3, ReadTimeout: 600})
+	if err != nil {
+		panic(err)
+	}
+	defer w3.close()
+	w3.cfgLine()
+	if !w3.start() {
+		return
+	}
+	w3.assoc(0)
+	w3.peers[0].AnswerHB, w3.peers[0].DupHB = true, true
+	for round := 0; round < c.pick(3, 12); round++ {
+		w3.peers[0].Idle(400 * time.Millisecond)
+		if o := w3.hb(0); !o.Alive {
+			break
+		}
+		pdrs, fars, qers := w3.genSession(0)
+		w3.nextCP++
+		if h, _ := w3.est(0, w3.nodes[0], w3.nextCP, pdrs, fars, qers, "after-duplicate-response"); h != nil {
+			w3.del(0, h.up, "after-duplicate-response")
+		}
+	}
 }
